@@ -30,6 +30,10 @@ DESCENT = ("parseValue", "parseObject", "parseArray")
 
 META["explanation"] += " " + "(PR-quote) abstract paths through parseValue's string arm: every path from the UnEscape call to the return of the string has found the unit at (returned length - 1) equal to the quote, and a path between that test and the return looks for a backslash in front of it (UnEscape also returns at the end of the text). (PR-scratch, shared with C06) every path of JSONParser::Parse clears the scratch stream before parseValue."
 
+META["explanation"] += " " + '(ERR-scan, shared with C09) the bool result of a scanner that moves a by-reference cursor (parseExponent) is never an expression statement of its own. (KW-exhaust) must-analysis: a keyword kind (True/False/Null) is returned, or a keyword-matching helper returns true, only where `*w == 0` is known for the pointer w that walks the literal.'
+
+META["explanation"] += " " + '(HEX-four) every HexStringToNumber call in UnEscape is the cursor form and the cursor is compared with the expected end afterwards. (PR-lowsurr) the two-unit skip in front of a low surrogate is unreachable once the true edges of the tests of those units against the backslash and against u/U are cut.'
+
 def cursor_and_bound(fn):
     """(by-ref unsigned cursor parameter, bound parameter) of a descent function"""
     c = CONTRACTS.get(fn.q)
@@ -533,5 +537,165 @@ def run(ctx):
         fwd.ob(g.sig, g.text(cs[0])[:70], ok_c and ok_l, why, g.loc(cs[0]))
     from rules.common import rule_narrow_units
     from rules.common import rule_sign_unit
-    return [gate, fail, closed, unesc, quote, scratch, fwd, rule_narrow_units(ctx, m, ["JSON.hpp", "JSONUtils.hpp", "StringUtils.hpp"]),
+    from rules.common import rule_scanner_result
+    errscan = rule_scanner_result(ctx, m, ["Digit.hpp", "JSON.hpp", "JSONUtils.hpp"])
+    kw = rule_keyword_exhausted(ctx, m)
+    hexr, lowr = rule_escape_units(ctx, m)
+    return [gate, fail, closed, unesc, quote, scratch, errscan, kw, hexr, lowr, fwd, rule_narrow_units(ctx, m, ["JSON.hpp", "JSONUtils.hpp", "StringUtils.hpp"]),
             rule_sign_unit(ctx, m, ["JSON.hpp", "JSONUtils.hpp", "Digit.hpp", "StringUtils.hpp", "Unicode.hpp"])]
+
+
+def rule_keyword_exhausted(ctx, m):
+    """KW-exhaust: true / false / null are matched by walking a pointer through the keyword's literal next to the text cursor.
+    The walk also stops when the TEXT ends, so "the walk stopped" does not mean "the keyword was there": success may be reported
+    only where the unit under the keyword pointer is known to be the terminating zero.  Must-analysis on the CFG of every function
+    of JSON.hpp that increments a pointer-to-const-character variable w and compares *w with a unit of the text: the fact
+    "*w == 0" is generated on the true edge of `*w == 0` / the false edge of `*w != 0`, killed by a write to w, intersected at
+    joins; it must hold at every return of a keyword kind (ValueType::True/False/Null) in the arm that declares w, and at every
+    `return true` of a bool function whose parameter w is."""
+    r = Rule("KW-exhaust", "a keyword is reported as matched only where its literal was walked to the terminating zero", floor=3)
+    found = 0
+    for f in m.functions:
+        if f.inst or not f.cfg or not f.file.endswith("/JSON.hpp"):
+            continue
+        par = f.parents()
+        blocks = f.blocks()
+        # candidate walkers
+        ptrs = {}
+        for p_ in f.params:
+            if p_.get("ptr") and p_.get("pconst") and "Char_T" in (p_.get("t") or ""):
+                ptrs[p_["d"]] = (p_["n"], None)
+        for st_ in astq.nodes_of(f, "DeclStmt"):
+            for d in f.nodes[st_]["decls"]:
+                if d.get("tk") == "ptr" and "Char_T" in (d.get("t") or "") and "const" in (d.get("t") or "") and "d" in d:
+                    ptrs[d["d"]] = (d["n"], st_)
+
+        def deref_of(x):
+            """x is `*w` (possibly in casts/parens): returns decl id of w"""
+            x = f.strip_casts(x)
+            n_ = f.nodes[x]
+            while n_["k"] == "ParenExpr":
+                x = f.strip_casts(n_["ch"][0])
+                n_ = f.nodes[x]
+            if n_["k"] == "UnaryOperator" and n_["op"] == "*":
+                return f.nodes[f.strip_casts(n_["ch"][0])].get("d")
+            return None
+        for wd, (wn, decl_st) in ptrs.items():
+            incs = [x for x in f.walk() if f.nodes[x]["k"] == "UnaryOperator" and f.nodes[x]["op"] in ("++",) and f.nodes[f.strip(f.nodes[x]["ch"][0])].get("d") == wd]
+            cmp_text = [x for x in f.walk() if f.nodes[x]["k"] == "BinaryOperator" and f.nodes[x]["op"] in ("==", "!=") and
+                        any(deref_of(o) == wd for o in f.nodes[x]["ch"]) and any(f.nodes[f.strip_casts(o)]["k"] == "ArraySubscriptExpr" for o in f.nodes[x]["ch"])]
+            if not incs or not cmp_text:
+                continue
+            # sinks
+            sinks = []
+            if decl_st is not None:
+                arm = decl_st
+                while arm in par and f.nodes[arm]["k"] not in ("CaseStmt", "DefaultStmt"):
+                    arm = par[arm]
+                region = set(f.walk(arm)) if f.nodes[arm]["k"] in ("CaseStmt", "DefaultStmt") else set(f.walk())
+                sinks = [x for x in region if f.nodes[x]["k"] == "ReturnStmt" and
+                         any(f.nodes[y]["k"] == "DeclRefExpr" and (f.nodes[y].get("q") or "") in ("Qentem::ValueType::True", "Qentem::ValueType::False", "Qentem::ValueType::Null") for y in f.walk(x))]
+            elif (f.d.get("ret") or "").strip() == "bool":
+                sinks = [x for x in astq.returns(f) if f.const_value(f.nodes[x].get("val", -1)) == 1]
+            if not sinks:
+                continue
+            ctx.note_fn(f)
+            found += 1
+
+            def edge_gen(kind, payload):
+                if payload is None or kind not in ("true", "false"):
+                    return False
+                pn = f.nodes[f.strip(payload)]
+                if pn["k"] == "BinaryOperator" and pn["op"] in ("==", "!=") and any(deref_of(o) == wd for o in pn["ch"]) and \
+                        any(f.const_value(f.strip_casts(o)) == 0 for o in pn["ch"]):
+                    return (pn["op"] == "==") == (kind == "true")
+                return False
+            IN = {f.cfg["entry"]: False}
+            work = [f.cfg["entry"]]
+            at_sink = {}
+            it = 0
+            while work and it < 20000:
+                it += 1
+                b = work.pop()
+                fact = IN[b]
+                for e in blocks[b]["el"]:
+                    x = e.get("n")
+                    if not isinstance(x, int) or e.get("k"):
+                        continue
+                    n_ = f.nodes[x]
+                    if (n_["k"] == "UnaryOperator" and n_["op"] in ("++", "--") and f.nodes[f.strip(n_["ch"][0])].get("d") == wd) or \
+                            (n_["k"] in ("BinaryOperator", "CompoundAssignOperator") and n_.get("op", "").endswith("=") and n_["op"] not in ("==", "!=", "<=", ">=") and f.nodes[f.strip(n_["ch"][0])].get("d") == wd):
+                        fact = False
+                    if x in sinks:
+                        at_sink[x] = at_sink.get(x, True) and fact
+                for (s_, kind, payload) in dataflow.successors(f, blocks[b]):
+                    nf = fact or edge_gen(kind, payload)
+                    if s_ not in IN:
+                        IN[s_] = nf
+                        work.append(s_)
+                    elif IN[s_] and not nf:
+                        IN[s_] = False
+                        work.append(s_)
+            for x in sorted(sinks):
+                ok = at_sink.get(x, False)
+                r.ob(f.q, "%s (keyword pointer %s)" % (f.text(x)[:50], wn), ok, "reached only where *%s == 0 is known" % wn if ok else
+                     "success is reported on a path where the walk through the literal may have stopped because the TEXT ended: a keyword cut short (tru, fals, nul at the end of the text) is taken for the keyword", f.loc(x))
+    if not found:
+        r.broke("JSON.hpp: no keyword-matching walk was found")
+    return r
+
+
+def rule_escape_units(ctx, m):
+    """HEX-four / PR-lowsurr: a \\u escape is six units, \\uXXXX, and a high surrogate is followed by six more.  UnEscape moves its
+    cursor over those units; every unit it moves over without looking at is a unit of the TEXT that can be anything -- the closing
+    quote, the bracket, the comma ("\\ua"],"] then parses, with the string ending where the four 'digits' end).
+    (HEX-four) every HexStringToNumber call in UnEscape is the cursor form (it stops at the first unit that is not a hex digit)
+    and is followed, before the next write to the stream, by a comparison of that cursor with the expected end; the counted form
+    HexStringToNumber(p, 4) followed by `offset += 4` takes any four units.
+    (PR-lowsurr) the `offset += 2` that steps over the `\\u` of the low surrogate is dominated by the true edges of tests of
+    those two units against the backslash and the letter u."""
+    hexr = Rule("HEX-four", "the four units of a \\u escape are consumed only as far as they are hex digits, and all four are required", floor=2)
+    low = Rule("PR-lowsurr", "the two units in front of a low surrogate are tested to be \\u before they are skipped", floor=1)
+    ue = m.fn("Qentem::JSONUtils::UnEscape")
+    ctx.note_fn(ue)
+    calls_ = astq.calls(ue, "HexStringToNumber")
+    if not calls_:
+        hexr.broke("UnEscape: no HexStringToNumber call found")
+    for c in calls_:
+        args = ue.call_args(c)
+        cursor_form = len(args) == 3
+        tested = False
+        if cursor_form:
+            cur = ue.nodes[ue.strip_casts(args[1])]
+            # a later comparison of the cursor with an end position (== / !=), before the stream is written
+            for y in ue.walk():
+                yn = ue.nodes[y]
+                if y > c and yn["k"] == "BinaryOperator" and yn["op"] in ("==", "!=") and any(ue.nodes[ue.strip_casts(o)].get("d") == cur.get("d") and cur.get("d") is not None for o in yn["ch"]):
+                    tested = True
+        hexr.ob(ue.q, ue.text(c)[:70], cursor_form and tested, "cursor form, and the cursor is compared with the expected end" if cursor_form and tested else
+                "the four units after \\u are taken as hex digits without a test (%s): \"\\ua\"],\"] consumes the closing quote and bracket as digits and is accepted"
+                % ("counted form" if not cursor_form else "the cursor is never compared with the expected end"), ue.loc(c))
+    # the skip over \u of the low surrogate: offset += 2 inside the \u arm
+    skips = [y for y in ue.walk() if ue.nodes[y]["k"] == "CompoundAssignOperator" and ue.nodes[y]["op"] == "+=" and ue.const_value(ue.strip_casts(ue.nodes[y]["ch"][1])) == 2]
+    if not skips:
+        low.ob(ue.q, "low surrogate", True, "no two-unit skip in UnEscape (the low surrogate's \\u is consumed some other way)", "Include/JSONUtils.hpp:%d" % ue.line)
+    for y in skips:
+        cur = ue.nodes[ue.strip(ue.nodes[y]["ch"][0])]
+        tests = {"BSlashChar": False, "U_Char": False}
+        tb = dataflow.block_of(ue, y)
+        for k, names in (("BSlashChar", ("BSlashChar",)), ("U_Char", ("U_Char", "CU_Char"))):
+            conds = set()
+            for t in ue.walk():
+                tn = ue.nodes[t]
+                if tn["k"] == "BinaryOperator" and tn["op"] == "==" and any(ue.nodes[ue.strip_casts(o)]["k"] == "ArraySubscriptExpr" and cur.get("n", "?") in ue.text(o) for o in tn["ch"]) and \
+                        any(ue.text(o).split("::")[-1] in names for o in tn["ch"]):
+                    conds.add(t)
+            if conds and tb is not None:
+                # cut the true edges of all of them together (u or U): is the skip still reachable?
+                seen = dataflow.reachable(ue, avoid_edge=lambda b, s_, kind, payload: kind == "true" and payload is not None and ue.strip(payload) in conds)
+                tests[k] = tb not in seen
+        ok = all(tests.values())
+        low.ob(ue.q, ue.text(y), ok, "both units are tested before they are skipped" if ok else
+               "the two units after a high surrogate are skipped without being looked at (%s not tested): [\"\\uD83D\"]1234\"] is accepted, the `\"]` is swallowed as if it were \\u"
+               % ", ".join(k for k, v in tests.items() if not v), ue.loc(y))
+    return [hexr, low]
